@@ -2,6 +2,7 @@
 from __future__ import annotations
 
 import torch
+import z3
 import torchphysics as tp
 from torchphysics.problem.spaces.points import Points
 
@@ -52,6 +53,19 @@ def _rows(o_pts, names, dims, space_vars, pvars):
     return out
 
 
+def _termination_premise(env, sh, rows, tag="wit"):
+    """premise of the termination twin (harness): for every parameter row the set has an interior point (a symbolic
+    witness at distance > 0.01 from the complement), i.e. there is something to sample"""
+    if not env.symbolic:
+        return
+    d = sum(dd for _, dd in sh.space_vars)
+    w = env.tensor(tag, (len(rows), d))
+    el = SH.elems(env, w)
+    f = env.L.And([sh.oset.interior(el[i * d:(i + 1) * d], prm, env.L, 0.01) for i, prm in enumerate(rows)])
+    old = getattr(env.ctx, "termination_premise", None)
+    env.ctx.termination_premise = f if old is None else z3.And(old, f)
+
+
 def domain_case(name, mk, info, method, n, k, boundary):
     cname = "%s/%s/%s/n%d/k%d" % ("bsample" if boundary else "sample", name, method, n, k)
     composite = info.get("fam") in ("bool", "nested")
@@ -65,6 +79,7 @@ def domain_case(name, mk, info, method, n, k, boundary):
             env.assume(sh.oset.positive(prm, L))
         if boundary and composite:
             SH.bound_all_inputs(env, 16, rows)
+        _termination_premise(env, sh, rows)
         d = sh.dom.boundary if boundary else sh.dom
         f = d.sample_random_uniform if method == "random" else d.sample_grid
         pts = f(n=n, params=P)
@@ -267,6 +282,8 @@ def cases(tier):
         if not quick:
             cs.append(sampler_case("random", name, mk, info, 3, 2, True))
             cs.append(sampler_case("lhs", name, mk, info, 3, k, False))
+    for c in cs:
+        c.must_terminate = True  # "the sampling call terminates": paths beyond the unwinding bound are replayed with a time limit
     if quick:
         for c in cs:
             c.max_forks_per_site = min(c.max_forks_per_site, 3)
